@@ -17,7 +17,7 @@ go build -o bin/vinstr ./cmd/vinstr
 bin/vinstr -repo $REPO -out _scratch/ov-base -mode base
 go build $MODFLAG -tags verif -overlay _scratch/ov-base/overlay.json -o bin/vcheck ./cmd/vcheck
 go build $MODFLAG -tags verif -overlay _scratch/ov-base/overlay.json -o bin/vchild ./cmd/vchild
-if [ "${1:-all}" = "all" ] || [ "${1:-}" = "C05" ] || [ "${1:-}" = "C18" ]; then
+if [ "${1:-all}" = "all" ] || [ "${1:-}" = "C05" ] || [ "${1:-}" = "C18" ] || [ "${1:-}" = "C19" ]; then
   bin/vinstr -repo $REPO -out _scratch/ov-sched -mode sched
   go build $MODFLAG -tags verif -overlay _scratch/ov-sched/overlay.json -o bin/vsched ./cmd/vcheck
 fi
